@@ -45,7 +45,7 @@ BuildArg(a) ==
       vp == IF a.vp.k # "string" THEN a.vp
             ELSE IF act \in {"SetTrue", "SetFalse"} THEN BoolVP
             ELSE IF act = "Count" THEN CountVP ELSE StringVP
-  IN [id |-> a.id, idb |-> a.idb, short |-> a.short, long |-> a.long, aliases |-> a.aliases, valiases |-> a.valiases, saliases |-> a.saliases, positional |-> IsPositionalDef(a),
+  IN [id |-> a.id, idb |-> a.idb, short |-> a.short, long |-> a.long, aliases |-> a.aliases, valiases |-> a.valiases, saliases |-> a.saliases, heading |-> a.heading, positional |-> IsPositionalDef(a),
       idx |-> a.index, action |-> act, nmin |-> nmin, nmax |-> nmax,
       required |-> a.required, global |-> a.global, last |-> a.last, tva |-> a.tva, hyphen |-> a.hyphen,
       negnum |-> a.negnum, req_eq |-> a.req_eq, delim |-> a.delim, term |-> a.term,
@@ -60,7 +60,7 @@ BuildArg(a) ==
       ignore_case |-> a.ignore_case, vp |-> vp, hide |-> a.hide,
       hide_short |-> a.hide_short, hide_long |-> a.hide_long, nlh |-> a.nlh, help |-> a.help, hide_pv |-> a.hide_pv]
 
-HelpArg == [id |-> "help", idb |-> <<104,101,108,112>>, short |-> <<104>>, long |-> <<104,101,108,112>>, aliases |-> <<>>, valiases |-> <<>>, saliases |-> <<>>, positional |-> FALSE,
+HelpArg == [id |-> "help", idb |-> <<104,101,108,112>>, short |-> <<104>>, long |-> <<104,101,108,112>>, aliases |-> <<>>, valiases |-> <<>>, saliases |-> <<>>, heading |-> "", positional |-> FALSE,
             idx |-> 0, action |-> "Help", nmin |-> 0, nmax |-> 0, required |-> FALSE, global |-> FALSE, last |-> FALSE,
             tva |-> FALSE, hyphen |-> FALSE, negnum |-> FALSE, req_eq |-> FALSE, delim |-> 0, term |-> <<>>,
             defaults |-> <<>>, missing |-> <<>>, default_ifs |-> <<>>, has_env |-> FALSE, env |-> <<>>,
